@@ -21,7 +21,7 @@ CHECKS = {
          "Exhaustive up to the preemption bound for data-race-free code (C15 checks race freedom). The instrumented sources are regenerated from the current /repo tree on every run; nothing is committed to /repo. WaitGroup contract misuse is reported as a note only.",
          "DESIGN.md §3 C16"),
  "C01": ("model_checking",
-         "exhaustive enumeration of (startup parameters x message in place of the password x validator outcome x continuation history x delivery mode) on a real server, judged by a three-state reference machine plus a differential run without authentication",
+         "exhaustive enumeration of (startup parameters x message in place of the password x validator outcome x continuation history x delivery mode) on a real server, judged by a three-state reference machine plus a differential run without authentication; stateless schedule exploration (cooperative scheduler, preemption-bounded DFS with happens-before state caching, race monitor) of two concurrent authentications",
          "27 messages in place of the password (well-formed with accepting / rejecting / failing validator, malformed, every other type byte, truncated, oversized, EOF) x 3 startup parameter sets x all continuations of <=3 (quick) / <=4 (thorough) letters x {pipelined in one segment, after quiescence} run on a fresh real Server; non-accepted => no AuthenticationOk, no ParameterStatus, no reply to later input, no callback, connection closed, class-28 error for a wrong password; accepted => same transcript and callbacks as without authentication.",
          "Not asserted: an ErrorResponse for validator failure / malformed input, a ReadyForQuery directly behind the rejection error, acceptance of a password message carrying surplus bytes.",
          "DESIGN.md §3 C01"),
@@ -106,6 +106,28 @@ CHECKS = {
          "Trusts the independent strict ErrorResponse parser and the 40-line reference walk; decoration values are non-empty, NUL-free text.",
          "DESIGN.md §3 C17"),
 }
+
+# sentences appended to the level texts above (families added after the seeded-change waves, DESIGN.md §9.4)
+ADD = {
+ "C01": " Schedule part (merged into the same evidence): two connections authenticating at the same time — both accepted (S-G) / one accepted and one rejected with a pipelined Query (S-J) — explored under the cooperative scheduler with the race monitor: all schedules up to 2 preemptions (thorough: all schedules); every connection must receive exactly what it receives when served alone.",
+ "C02": " F4: one-column rows over the whole C09 value alphabet (types x boundary values x source forms x NULL forms) x {text, binary}.",
+ "C03": " Declared-length family: 6 positions (first message, after a query, inside a batch, inside text / binary COPY, awaiting the password) x 15 message types x 15 declared lengths (limit+5 ... 2^31-1, 2^31, 2^31+24, 2^32-1) followed by 0/1/40 framed queries and EOF: no byte behind an incomplete header may be interpreted as a message. Starter-surplus family: 5 statement-starting messages (Query / Execute starting a text / binary COPY) x 9 surplus contents: callbacks compared with the surplus-free run.",
+ "C04": " Transport faults also with the input arriving byte by byte (the failure strikes exactly when the server has consumed b bytes); a failed transport read over and over counts as a livelock. Repetition family: 23 protocol units repeated up to 20 000 (thorough 100 000) times on one connection, live-heap and goroutine-stack growth bounded independently of the count.",
+ "C05": " Neighbour family: 7 programs x 5 states of another connection of the same server (discarding until Sync, inside COPY-in, inside an extended batch, not started, after a failed query); the neighbour is completed afterwards and must be undisturbed.",
+ "C06": " Pending-input family: core-16 histories of length <=3 (4 thorough) with every message delivered together with the first 1 / 5 (thorough also 4 / all but the last) bytes of the next one: the reply is due before the rest arrives.",
+ "C08": " Every portal is executed a second time (same parameters); wide statements of 255, 256, 32767, 32768, 40000 and 65535 parameters through Describe and Bind/Execute.",
+ "C09": " Redefined statements: a name defined twice (1-3 columns each, both formats) while a portal of the first definition is open; every DataRow is judged against the RowDescription of its own portal.",
+ "C10": " Position 'inside a TLS-upgraded session': limits 1 KiB / 8 KiB / 20000 x Query and Bind bodies of L-1, L, L+1, 2L, 16383..16385, 20000, 70000 bytes, differential against the plaintext session.",
+ "C11": " TLS-limit family: configured limits 1 KiB / 16 KiB / 64 KiB (9 limits thorough) x Query / Bind bodies around the limit and around the 16 KiB TLS record size.",
+ "C12": " 10 further configurations hand a second user-supplied map to an earlier GlobalParameters option: neither map is ever modified. The schedule part also covers scenario S-G (two cleartext-password start-ups interleaving).",
+ "C13": " Payload family: all sequences of <=2 CopyData payloads over 11 look-alike payloads (the text format's end-of-data marker, \\N, NUL, 0xFF, a framed CopyDone ...) x {drain, take1} x {CopyDone, CopyFail}. Extended protocol: every Bind result-format section x both copy formats x 1 / 3 columns (CopyInResponse announces the handler's format).",
+ "C15": " Scenario S-J (thorough): one accepted and one rejected authentication at the same time.",
+ "C16": " Scenario X9: Close while a statement is inside COPY-in. X10: one Server serving two listeners (every Serve call returns). X11: two Query messages arriving in one segment.",
+ "C17": " 25 letters now (hint / detail / base texts with % verbs, a second function at a file and line used before); consecutive family: every 1-letter error followed by every error of <=2 letters, the second one checked (nothing of an earlier report may show in a later one).",
+ "C18": " Letters also close the portals / statements whose values were retained and re-define those names (21 / 20 letters).",
+ "C19": " The failing middleware returns either its context or a nil context with the error.",
+ "C20": " Long family: a block repeated up to 70 000 (thorough 200 000) times with a tail that introduces a new highest index (the number of markers, not the index, crosses 65535). Redefine family: a statement name parsed twice, Describe announces the count of the latest text.",
+}
 NOT_APPLICABLE = {
 }
 ALL = ["C%02d" % i for i in range(1, 21)]
@@ -117,6 +139,7 @@ def main():
         if pid not in CHECKS:
             continue
         cat, tech, text, note, ref = CHECKS[pid]
+        text += ADD.get(pid, "")
         checks.append({
             "property_id": pid,
             "quick_cmd": "./bin/check %s quick" % pid,
